@@ -145,6 +145,18 @@ CLAIMS["C14"] = (
     "Trusted: Coq kernel, renderers, issubclass table of the pool classes. Models-as-field-types go through C13. Two defects "
     "repaired in /repo (origin-only union sub-case, multi-case union treated as Optional).", "DESIGN.md section 5 C14", TECH)
 
+CLAIMS["C16"] = (
+    "Proof: C16_resolver_is_substitution - for every well-formed class table (any depth, any number of bases, variables "
+    "re-ordered, partially bound, nested inside other generics, shadowed by overriding annotations) the model of "
+    "GenericResolver (members by parents + parametrisation) returns for every field the annotation of the defining class "
+    "with the substitutions composed along the inheritance path; C16_substitution_composes for nested parametrisations. "
+    "Tied to the code by generated hierarchies rendered as real generic dataclasses / attrs classes: for every field and 13 "
+    "probe data, Retort.load accepts exactly the data conforming to the specified substituted type (incl. bare use with "
+    "implicit parameters); the model's resolve is evaluated on the same tables and compared with the restated specification.",
+    "Trusted: Coq kernel, renderers, the harness's conformance checker for the probe pool. Introspection of the model classes "
+    "(which annotations a class carries, overriden_types) is tied by behaviour only. TypeVarTuple is not modelled.",
+    "DESIGN.md section 5 C16", TECH)
+
 NOT_YET = "check not built yet in this session (DESIGN.md section 10 build order); not claimed until its model, theorems and correspondence exist"
 
 
